@@ -202,6 +202,46 @@ def observable(io, so):
     return 'mismatch'
 
 
+SECOND_PER_SHAPE = int(os.environ.get('VERIF_SECOND', '1') or 0)
+_CVC5 = [None]
+
+
+def second_solver(s, goal):
+    """cross-check of a discharged obligation whose two sides were NOT identical terms: the same query (path condition and negated
+    goal, as SMT-LIB text) is given to cvc5 with a 10 s limit.  'unsat' = agreement; 'sat' = disagreement (the shape is then
+    inconclusive); anything else = no second opinion."""
+    import shutil, tempfile
+    if _CVC5[0] is None:
+        _CVC5[0] = shutil.which('cvc5') or ''
+    if not _CVC5[0]:
+        return 'no-cvc5'
+    s.push()
+    s.add(z3.Not(ir.lower_bool(goal)))
+    try:
+        text = s.to_smt2()
+    except Exception:
+        s.pop()
+        return 'no-text'
+    s.pop()
+    if 'ext_rotate' in text:
+        return 'no-text'
+    fd, path = tempfile.mkstemp(suffix='.smt2')
+    try:
+        with os.fdopen(fd, 'w') as f:
+            f.write('(set-logic QF_UFBV)\n' + text)
+        try:
+            out = subprocess.run([_CVC5[0], '--tlimit=10000', path], stdout=subprocess.PIPE, stderr=subprocess.STDOUT, timeout=30).stdout.decode()
+        except subprocess.TimeoutExpired:
+            return 'timeout'
+    finally:
+        os.unlink(path)
+    ans = [l.strip() for l in out.splitlines() if l.strip()]
+    for l in ans:
+        if l in ('unsat', 'sat'):
+            return l
+    return 'timeout' if any('interrupted' in l or 'timeout' in l.lower() for l in ans) else 'other:' + (ans[0][:60] if ans else '')
+
+
 def checked(s, timeout_ms, vars_=(), size=0):
     """Solver.check().  Returns (status, env or None).  z3's own timeout is not honoured inside some preprocessing steps
     on very large terms, so large queries run in a forked child that the parent can kill (threads are not an option:
@@ -282,7 +322,7 @@ def run_shape(case, shape, tier, seed):
     t0 = time.time()
     res = dict(case=case.name, prop=case.prop, kind=case.kind, shape=shape, status='pass', obligations=0, discharged=0,
                identical=0, paths=0, forks=0, branch_checks=0, solver_s=0.0, nvars=0, candidates=[], validations=[],
-               samples=[], reason=None, queries=0)
+               samples=[], reason=None, queries=0, second=[])
     ir.reset()
     core.CTX.nchecks = core.CTX.nforks = 0
     core.CTX.solver_time = 0.0
@@ -421,6 +461,8 @@ def run_shape(case, shape, tier, seed):
                 res['discharged'] += 1
                 if ir.isc(goal):
                     res['identical'] += 1
+                elif len(res['second']) < SECOND_PER_SHAPE and gsize < 3000:
+                    res['second'].append(second_solver(s, goal))
                 # translator validation on a sample of paths
                 if nval < case.nvalidate and io[0] == 'ok':
                     nval += 1
@@ -759,6 +801,10 @@ def finish(prop, tier, seed, results, t0):
                 r['reason'] = 'translator validation failed: engine says %s, real code says %s (env %s)' % (
                     json.dumps(v['expect'])[:200], json.dumps(o.get('impl'))[:200], json.dumps(v['env'])[:200])
     for r in results:
+        if 'sat' in r.get('second', []) and r['status'] == 'pass':
+            r['status'] = 'inconclusive'
+            r['reason'] = 'z3 discharged an obligation that cvc5 reports satisfiable (solvers disagree)'
+    for r in results:
         if r['status'] == 'inconclusive':
             inconcl.append(r)
     # 2. report
@@ -843,6 +889,10 @@ def write_evidence(prop, tier, seed, results, violations, knowns, inconcl, nvali
             per_case=bycase,
             solver_time_s=round(sum(r['solver_s'] for r in results), 3),
             solver='z3 %s (python API), per-query timeout per case' % z3.get_version_string(),
+            second_solver=dict(tool='cvc5 binary, 10 s limit, first discharged obligation with non-identical terms per shape (terms < 3000 nodes)',
+                               agreed_unsat=sum(r.get('second', []).count('unsat') for r in results),
+                               disagreed=sum(r.get('second', []).count('sat') for r in results),
+                               no_answer=sum(1 for r in results for x in r.get('second', []) if x not in ('unsat', 'sat'))),
             functions_encoded=loader.functions_encoded(sorted(loader.SOURCES)),
             bounds={c.name: getattr(c, 'bounds', '') for c in cases.values()},
             outside_bounds={c.name: getattr(c, 'outside', '') for c in cases.values() if getattr(c, 'outside', '')},
